@@ -2,7 +2,7 @@
 import itertools, random
 import engine, ops, vlib
 
-PROOFS = ["Properties_C09"]
+PROOFS = ["Properties_C09", "Properties_C09b"]
 SKIP = set()
 
 
